@@ -26,7 +26,9 @@ ASSUMPTIONS = [
     "pattern atoms carry isotope None and stereo Unknown (wildcards of _node_match)",
 ]
 ELS = [6, 7, 8, 16, 1, 9]
-BTS = [1, 2, 3, 20, 21, 0]
+BTS = [1, 2, 3, 20, 21, 0, 1, 2, 20, 4, 5, 6, 10, 11, 98, 100, 101]   # every member except FractionalOrder; common ones weighted
+ATS = [1, 1, 2, 31, 32, 33, 0, 10, 20, 100, 202]
+PATTERN_BTS = (0, 1, 2, 3, 20, 21)   # bond types the matcher defines as pattern types (others raise NotImplementedError / never match by design)
 
 
 # ---------------------------------------------------------------- references
@@ -81,11 +83,11 @@ def ref_bridges(n, edges):
     return out
 
 
-def build(n, edges, els=None, bts=None, cls="Connectivity"):
+def build(n, edges, els=None, bts=None, cls="Connectivity", ats=None):
     import molli as ml
-    from molli.chem import Atom, BondType
+    from molli.chem import Atom, BondType, AtomType
 
-    atoms = [Atom(element=(els[i] if els else 6), label=f"a{i}") for i in range(n)]
+    atoms = [Atom(element=(els[i] if els else 6), label=f"a{i}", atype=AtomType(ats[i] if ats else 1)) for i in range(n)]
     if cls == "Connectivity":
         g = ml.Connectivity(atoms)
     elif cls == "Molecule":
@@ -361,15 +363,18 @@ def check_match(r) -> list[Fail]:
         pels = [0 if (r["wild"] >> i) & 1 else e for i, e in enumerate(pels)]
         pb = [0] * len(pedges)
     elif mode == "own_types":
-        pb = pbts
+        pb = [b if b in PATTERN_BTS else 0 for b in pbts]
     elif mode == "absent":
         # a pattern that cannot occur: an element the source does not contain
         pels = [35] + pels[1:]
         pb = [0] * len(pedges)
     else:
         raise HarnessError("bad mode")
-    src = build(n, edges, els, bts, r["graph"]["cls"])
-    pat = build(len(chosen), pedges, pels, pb, "Connectivity")
+    # atom types are perceived annotations (mol2 C.ar / C.3 ...), not part of the matching contract: source and pattern carry unrelated ones
+    sats = [ATS[(r["seed"] * 7 + 3 * i) % len(ATS)] for i in range(n)] if r.get("typed") else None
+    pats = [ATS[(r["seed"] * 5 + i) % len(ATS)] for i in range(len(chosen))] if r.get("typed") == 2 else None
+    src = build(n, edges, els, bts, r["graph"]["cls"], ats=sats)
+    pat = build(len(chosen), pedges, pels, pb, "Connectivity", ats=pats)
     where = f"match[{mode}] source n={n}, pattern {len(chosen)} atoms {pels} edges {pedges}"
     fails: list[Fail] = []
     try:
@@ -463,14 +468,14 @@ def check_match(r) -> list[Fail]:
 
 
 def classify_match(r):
-    return True, ["mode=" + r["mode"], "cls=" + r["graph"]["cls"]]
+    return True, ["mode=" + r["mode"], "cls=" + r["graph"]["cls"], "atom_types=" + ["default", "source_typed", "both_typed"][r.get("typed", 0)]]
 
 
 def strat_match(tier):
     i = st.integers(0, 1000)
     return st.fixed_dictionaries({
         "graph": _graph_recipe(24 if tier == "quick" else 40), "mode": st.sampled_from(["wildcard", "wildcard", "own_types", "absent"]),
-        "seed": i, "size": i, "grow": st.lists(i, min_size=5, max_size=5), "wild": st.integers(0, 63), "shuffle": st.booleans(),
+        "seed": i, "size": i, "grow": st.lists(i, min_size=5, max_size=5), "wild": st.integers(0, 63), "shuffle": st.booleans(), "typed": st.sampled_from([0, 1, 2]),
         "edit": st.one_of(st.none(), st.tuples(st.sampled_from(["del_bond", "connect", "element"]), i, i).map(list)),
     })
 
